@@ -250,7 +250,7 @@ def dedup_histories(execs, proj):
 # ------------------------------------------------------------------------------------------------
 def tlc_cmd(spec, cfg, metadir, workers=1, heap='3g', extra=(), simulate=None):
     cmd = ['java', '-XX:+UseParallelGC', '-Xmx' + heap, '-Xss16m', '-DTLA-Library=' + SPEC, '-cp', TLC_CP, 'tlc2.TLC', '-workers', str(workers),
-           '-metadir', metadir, '-config', cfg]
+           '-metadir', metadir, '-noGenerateSpecTE', '-config', cfg]
     if simulate:
         cmd += ['-simulate', simulate]
     cmd += list(extra) + [spec]
